@@ -169,6 +169,7 @@ def run(R):
     r3(R)
     r4_to_r8(R, tr, inc)
     r9(R, inc)
+    r10(R)
     # ---- R2
     impls = [b for b in prog.bodies.values() if b.self_adt == "shared::provenance::ExpirationProvenance" and b.r.get("impl_trait", "").endswith("Provenance")]
     bym = {b.name: b for b in impls}
@@ -548,9 +549,13 @@ def r5_r6(R):
         joins = [c for c in b.calls() if c.name().startswith("find_premise_solutions")]
         R.ob("C12-R6", "join:" + b.short, "%s hands a delta to the premise join" % b.short, len(joins) >= 1, where=b.where())
         for c in joins:
-            pl = F.op_place(c.args[-1])
-            der = P.derives(prog, b, pl["l"]) if pl is not None else set()
-            ok = ("field", "self.delta_improved") in der
+            # whichever argument carries the delta (the last one on the pinned tree; a reordered signature is checked by C12-R10)
+            ok = False
+            for a in c.args:
+                pl = F.op_place(a)
+                der = P.derives(prog, b, pl["l"]) if pl is not None else set()
+                if ("field", "self.delta_improved") in der:
+                    ok = True
             R.ob("C12-R6", "consumes:" + b.short, "the delta of a later round includes the facts queued in self.delta_improved", ok, where=b.where(c.ln),
                  detail=None if ok else "facts whose tag improved are queued but never joined again: consequences keep the stale, too-early expiry")
             # the same local on every path (no branch that builds the delta without the queue, except the first round)
@@ -589,3 +594,79 @@ def r9(R, inc):
              detail=None if (not trunc and not skip) else "facts that are set aside (e.g. because no rule body mentions their predicate) are unknown to the reasoner: "
              "when a rule concludes one of them again it counts as new and its tag is set, not merged")
     R.ob("C12-R9", "both-sets", "both the carried-over and the new / renewed facts are loaded (roles found: %s)" % sorted(roles), {"old", "new"} <= roles, where=inc.where())
+
+
+
+def r10(R):
+    """semi-naive: the distinguished premise meets the delta, the others meet everything - and the caller hands the two over in that order"""
+    from lib import pipeline as P
+    prog = R.prog
+    R.rule("C12-R10", "delta and total keep their roles across the call: in a semi-naive premise solver the premise singled out by the outer loop is "
+                      "joined with one parameter (the delta) and the remaining premises with another (all facts); at every call site the argument in "
+                      "the delta position is not the caller's complete fact list, and the argument in the all-facts position is. Both are "
+                      "`&[Triple]`, so swapping them type-checks: a derivation is then found only when all premises but one are new - "
+                      "rules with three premises lose conclusions (or keep stale expiries) after the first evaluation")
+    n = 0
+    for k, b in sorted(prog.bodies.items()):
+        if b.crate != "datalog" or b.is_closure or "::tests::" in k or "/materialisation/" not in b.file:
+            continue
+        joins = [c for c in b.calls() if c.name().startswith("join_premise") and len(c.args) >= 2]
+        if len(joins) < 2:
+            continue
+        loops = b.loops()
+        items = list(loops.items() if isinstance(loops, dict) else loops)
+        depth = lambda bb: sum(1 for h, bl in items if bb in bl)
+        roles = {}
+        for c in joins:
+            r = b.alias_root(c.args[1]) if F.op_place(c.args[1]) else None
+            if r is None or not (1 <= r <= b.nargs):
+                continue
+            roles.setdefault(r, set()).add(depth(c.bb))
+        if len(roles) != 2:
+            continue
+        (pa, da), (pb, db) = sorted(roles.items(), key=lambda kv: min(kv[1]))
+        if min(da) == min(db):
+            continue
+        delta_p, total_p = pa, pb         # the shallower join is the distinguished (delta) premise
+        n += 1
+        R.saw(b)
+        callers = [(x, c) for x in prog.bodies.values() if x.crate == "datalog" and "::tests::" not in x.key for c in x.calls() if c.key == k]
+        R.ob("C12-R10", "called:" + b.name, "%s has a caller (found %d)" % (b.name, len(callers)), bool(callers), where=b.where())
+        for x, c in callers:
+            # the caller's complete fact list: a parameter of slice/Vec<Triple> type named like `all_facts`, or the one not sliced
+            ad, at = c.args[delta_p - 1], c.args[total_p - 1]
+            rd, rt = (x.alias_root(ad) if F.op_place(ad) else None), (x.alias_root(at) if F.op_place(at) else None)
+            whole_params = [i for i in range(1, x.nargs + 1) if "Triple" in x.local_ty(i) and ("[" in x.local_ty(i) or "Vec<" in x.local_ty(i))]
+            d_is_whole = rd in whole_params and not _sliced(x, ad)
+            t_is_whole = rt in whole_params and not _sliced(x, at)
+            ok = (not d_is_whole) and t_is_whole
+            R.ob("C12-R10", "roles:%s<-%s" % (b.name, x.name), "%s hands %s its delta as `%s` and all facts as `%s`" % (
+                x.name, b.name, b.local_name(delta_p), b.local_name(total_p)), ok, where=x.where(c.ln),
+                detail=None if ok else "the argument for `%s` (joined with the distinguished premise) is %s, the argument for `%s` (joined with the other "
+                "premises) is %s" % (b.local_name(delta_p), "the caller's complete fact list" if d_is_whole else "a derived list",
+                                     b.local_name(total_p), "the complete fact list" if t_is_whole else "not the complete fact list"))
+    R.floor("C12-R10", "semi-naive premise solvers with a delta and a total parameter", n, 1)
+
+
+def _sliced(x, op):
+    """the operand is a sub-range / a rebuilt list rather than the parameter itself"""
+    pl = F.op_place(op)
+    seen = set()
+    while pl is not None and pl["l"] not in seen:
+        seen.add(pl["l"])
+        if 1 <= pl["l"] <= x.nargs:
+            return False
+        ds = x.defs().get(pl["l"], [])
+        if len(ds) != 1:
+            return True
+        d = ds[0]
+        if d[0] == "call":
+            if d[2].name() in ("deref", "as_ref", "as_slice", "borrow"):
+                pl = F.op_place(d[2].args[0]) if d[2].args else None
+                continue
+            return True
+        if d[0] == "assign" and d[3]["rv"] in ("use", "ref", "cast"):
+            pl = d[3].get("pl") if d[3]["rv"] == "ref" else F.op_place(d[3].get("op") or {})
+            continue
+        return True
+    return True
